@@ -225,6 +225,8 @@ Fixpoint le_off (i : nat) (idx inp : list Z) : bool :=
 Definition t_gather (s : shape) (d : Z) (ishape : shape) : res shape :=
   let s' := nonempty s in
   let i' := nonempty ishape in
+  (* an index without elements is not validated (ATen returns before the shape checks): only the dim is wrapped *)
+  if numel ishape =? 0 then (do _i <- wrap_dim d (List.length s'); Ok ishape) else
   if negb (Nat.eqb (List.length s') (List.length i')) then Reject else
   do i <- wrap_dim d (List.length s');
   (* a non-empty index into a size-0 dim has no legal value: always out of bounds *)
